@@ -21,6 +21,11 @@ type c10Case struct {
 	// History: before the pair is served, the same middleware serves a few requests whose wrapped handler
 	// overwrites in place the header slices it can reach (the pair itself is served with the constant handler)
 	History bool `json:"adversarial_history,omitempty"`
+	// Order: R1 == R2; the first response is taken while the whole request alphabet is served in order on one
+	// middleware, the second while it is served in reverse order on another one (a request is certainly
+	// cache-equivalent to itself, whatever was served before it)
+	Order    bool `json:"order_of_other_requests,omitempty"`
+	Thorough bool `json:"thorough_alphabet,omitempty"`
 }
 
 func c10Build(passthrough bool, l CfgLit, debug bool) (http.Handler, *vlib.Noop, error) {
@@ -123,6 +128,36 @@ func c10Judge(k c10Case) *vlib.Failure {
 	if err != nil {
 		return vlib.Failf("configuration of the C10 alphabet rejected: %v", err)
 	}
+	if k.Order {
+		h2, inner2, m2, err := c10BuildM(k.Passthrough, k.Cfg, k.Debug)
+		if err != nil {
+			return vlib.Failf("configuration of the C10 alphabet rejected: %v", err)
+		}
+		if k.History {
+			c10History(m)
+			c10History(m2)
+		}
+		var pre map[string][]string
+		if k.Preset != nil {
+			pre = map[string][]string{"Vary": k.Preset}
+		}
+		reqs := c10Requests(k.Thorough)
+		var a, b vlib.Resp
+		target := k.R1.String()
+		for i := range reqs {
+			if r := vlib.Serve(h, &inner.Calls, reqs[i], pre); reqs[i].String() == target {
+				a = r
+			}
+			j := len(reqs) - 1 - i
+			if r := vlib.Serve(h2, &inner2.Calls, reqs[j], pre); reqs[j].String() == target {
+				b = r
+			}
+		}
+		if a.Sig() != b.Sig() {
+			return vlib.Failf("the same request %s is answered differently depending on the requests served before it (whole alphabet in order: %s; in reverse order: %s)", k.R1, a.Sig(), b.Sig())
+		}
+		return nil
+	}
 	if k.History {
 		c10History(m)
 	}
@@ -172,7 +207,7 @@ func c10Requests(more bool) []vlib.Req {
 		methods = append(methods, "HEAD")
 		origins = append(origins, []string{"https://a.example", "https://b.example"}, []string{""})
 		acrms = append(acrms, []string{}, []string{""})
-		acrhs = append(acrhs, []string{"x-a", "x-a"}, []string{})
+		acrhs = append(acrhs, []string{"x-a", "x-a"}, []string{}, []string{"x-a", "x-z"})
 	}
 	if more {
 		methods = append(methods, "options", "POST")
@@ -295,8 +330,27 @@ func checkC10(c *vlib.Ctx) (string, string) {
 				}
 			}
 			if f := c10Compare(j.preset, r, r, resps[i], resps[i]); f != nil {
-				ck.Report(c10Case{j.pass, j.lit, j.debug, j.preset, r, r, j.hist}, f)
+				ck.Report(c10Case{Passthrough: j.pass, Cfg: j.lit, Debug: j.debug, Preset: j.preset, R1: r, R2: r, History: j.hist}, f)
 			}
+		}
+		// the same alphabet in reverse order on a second middleware: every request is cache-equivalent to itself
+		h2, inner2, m2, err2 := c10BuildM(j.pass, j.lit, j.debug)
+		if err2 == nil {
+			if j.hist {
+				c10History(m2)
+			}
+			for i := n - 1; i >= 0; i-- {
+				if r := vlib.Serve(h2, &inner2.Calls, reqs[i], pre); r.Sig() != sigs[i] {
+					k := c10Case{Passthrough: j.pass, Cfg: j.lit, Debug: j.debug, Preset: j.preset, R1: reqs[i], R2: reqs[i], History: j.hist, Order: true, Thorough: c.Thorough()}
+					if f := vlib.Guard(func() *vlib.Failure { return c10Judge(k) }); f != nil {
+						ck.Report(k, f)
+					} else {
+						vlib.HarnessError("fast path and judge disagree on %+v", k)
+					}
+					break
+				}
+			}
+			c.Transitions.Add(int64(n))
 		}
 		c.States.Add(int64(n))
 		var pairs, nontrivial int64
@@ -320,7 +374,7 @@ func checkC10(c *vlib.Ctx) (string, string) {
 					nontrivial++
 				}
 				if sigs[a] != sigs[b] {
-					k := c10Case{j.pass, j.lit, j.debug, j.preset, reqs[a], reqs[b], j.hist}
+					k := c10Case{Passthrough: j.pass, Cfg: j.lit, Debug: j.debug, Preset: j.preset, R1: reqs[a], R2: reqs[b], History: j.hist}
 					if f := vlib.Guard(func() *vlib.Failure { return c10Judge(k) }); f != nil {
 						ck.Report(k, f)
 					} else {
@@ -333,7 +387,7 @@ func checkC10(c *vlib.Ctx) (string, string) {
 		c.Transitions.Add(int64(n))
 		c.Nontrivial.Add(nontrivial)
 		if ji < 4 {
-			c.Sample(c10Case{j.pass, j.lit, j.debug, j.preset, reqs[n/3], reqs[n/3+1], j.hist})
+			c.Sample(c10Case{Passthrough: j.pass, Cfg: j.lit, Debug: j.debug, Preset: j.preset, R1: reqs[n/3], R2: reqs[n/3+1], History: j.hist})
 		}
 	}
 	c.ParRange(int64(nPristine), 1, "C10 pristine jobs", runJob)
